@@ -819,7 +819,8 @@ partial def runHsCase (lines : Array String) : Array String := Id.run do
     | "parsed" :: n :: rest => some (n.toNat?.getD 0, parseHeadParse rest)
     | _ => none
   let parse : Bytes → HeadParse := fun buf =>
-    match table.find? (·.1 == buf.length) with
+    let n := buf.length     -- computed once, not once per table entry
+    match table.find? (·.1 == n) with
     | some (_, r) => r
     | none => .error
   let statusLine : Bytes := match lines.toList.findSome? fun l =>
